@@ -1,4 +1,5 @@
 """C07: whatever the real classes print (on opaque, non-empty operands) is structurally well-formed BASIC09."""
+import re
 from tx import cases, opaque
 from tx.b09syntax import Bad, check_expr, check_program
 from tx.opaque import OpaqueUse
@@ -99,14 +100,22 @@ def quote_balance():
     def run():
         res = []
         sources = ['DATA "HELLO', 'DATA AB"CD,3', 'DATA "A","B', 'DATA X,"Y",Z"', 'A$="X', 'A$(1)="FOO', 'LET B$(I,J)="X Y', 'PRINT "A":Q$(2)="TAIL', "REM it\"s", "'5\" disk",
-                   'PRINT "a";"b', 'INPUT "p";A$', 'A$="a"+"b', 'IF A=1 THEN N$(K)="YES', 'DATA \'"\'', 'DATA A\'B"C']
+                   'PRINT "a";"b', 'INPUT "p";A$', 'A$="a"+"b', 'IF A=1 THEN N$(K)="YES', 'DATA \'"\'', 'DATA A\'B"C',
+                   # characters str.splitlines() treats as line ends, inside literals / comments / DATA items
+                   'A$="AB\x0cCD":PRINT "x\x1cy"', "REM page\x0bbreak\x85more", 'DATA "A\x1dB",C\x1eD', 'A$="AB\u2028CD"',
+                   # values, not objects, reach the text
+                   "DATA &HFF,,3:READ A,B,C", "DATA &H8000,\"x\",:READ A,B$,C"]
         for src in sources:
             bad = []
-            for opts in (dict(), dict(default_str_storage=80, initialize_vars=True)):
+            for opts in (dict(), dict(default_str_storage=80, initialize_vars=True), dict(output_dependencies=True, procname="p")):
                 try:
                     text = convert("10 %s\n20 END\n" % src, add_standard_prefix=False, **opts)
                 except Exception:  # noqa  (refused: nothing is emitted)
                     continue
+                if opts.get("output_dependencies"):
+                    text = text[text.rfind("procedure p"):]
+                if re.search(r"object at 0x|<coco\.|<class |Node\(|RegexNode", text):
+                    bad.append("an internal object's repr is part of the output: %r" % re.search(r".{0,30}(object at 0x|<coco\.|<class |Node\().{0,30}", text).group(0))
                 for line in text.split("\n"):
                     code = line
                     if "(*" in code:        # comments carry source text verbatim; the statement before them is judged
